@@ -19,6 +19,8 @@ pub struct Case {
     /// abandoned predecessor: number of blocks, and whether it uses the next larger block size
     pub pred_blocks: usize,
     pub pred_bigger: bool,
+    /// message id of the first request of the upload (ids count up from here, wrapping)
+    pub mid_base: u16,
 }
 
 fn case_json(c: &Case, budget: usize) -> Json {
@@ -28,6 +30,7 @@ fn case_json(c: &Case, budget: usize) -> Json {
         .set("body_len", c.body_len)
         .set("budget", budget)
         .set("deliveries_per_block", c.dups.iter().map(|d| *d as u64).collect::<Vec<_>>())
+        .set("first_message_id", c.mid_base)
         .set("abandoned_predecessor_blocks", c.pred_blocks)
         .set("predecessor_block_size", rb::size(if c.pred_bigger { c.szx + 1 } else { c.szx }))
 }
@@ -59,13 +62,13 @@ pub fn upload(c: &Case, rep: &mut Report) -> Result<&'static str, (String, Strin
     let mut srv = Server::new(budget, Duration::from_secs(3600));
     clock::reset();
     let app = |_call: &AppCall| -> AppReply { AppReply { code: 0x44, options: vec![], payload: vec![] } };
-    let mut mid = 100u16;
+    let mut mid = c.mid_base.wrapping_sub(1).wrapping_sub(c.pred_blocks as u16);
     // ---- abandoned predecessor (non-final blocks of a different body)
     if c.pred_blocks > 0 {
         let pszx = if c.pred_bigger { c.szx + 1 } else { c.szx };
         let pbs = rb::size(pszx);
         for k in 0..c.pred_blocks {
-            mid += 1;
+            mid = mid.wrapping_add(1);
             let x = srv.exchange(1, &put(mid, Some((k as u32, true, pszx)), &vec![0xEE; pbs]), &app);
             if let Some((stage, pn)) = &x.panic {
                 return Err((format!("C09/panic@{}", pn.site()), format!("{:?} (predecessor block {}): {}", stage, k, pn.message)));
@@ -78,7 +81,7 @@ pub fn upload(c: &Case, rep: &mut Report) -> Result<&'static str, (String, Strin
     for k in 0..n {
         let chunk = &the_body[(k * bs).min(c.body_len)..((k + 1) * bs).min(c.body_len)];
         let more = k + 1 < n;
-        mid += 1;
+        mid = mid.wrapping_add(1);
         let bytes = put(mid, Some((k as u32, more, c.szx)), chunk);
         for rep_no in 0..c.dups[k.min(c.dups.len() - 1)] {
             let before = srv.app_calls.len();
@@ -255,7 +258,7 @@ pub fn run(ctx: &Ctx, rep: &mut Report) {
         ctx.family(
             rep,
             "U1-every-length-small-blocks",
-            "SZX 0 and 1 (thorough: 0..2) x every body length 0..=3*bs+1 (thorough: 4*bs+1) x duplicate vectors (every vector over {1,2}(quick) / {1,2,3}(thorough) deliveries per block for <= 4 blocks) x budget {admits the block size with 32 bytes + 0/1/100 to spare, 1152} x abandoned predecessor upload of 0..6 blocks (same or next larger block size, distinct fill); each a complete upload",
+            "first message id rotating over {0, 101, 65535, 65534} (ids count up and wrap); SZX 0 and 1 (thorough: 0..2) x every body length 0..=3*bs+1 (thorough: 4*bs+1) x duplicate vectors (every vector over {1,2}(quick) / {1,2,3}(thorough) deliveries per block for <= 4 blocks) x budget {admits the block size with 32 bytes + 0/1/100 to spare, 1152} x abandoned predecessor upload of 0..6 blocks (same or next larger block size, distinct fill); each a complete upload",
             n,
             true,
             |i, rep| {
@@ -263,7 +266,7 @@ pub fn run(ctx: &Ctx, rep: &mut Report) {
                 let (szx, len, dv) = &table[d[0] as usize];
                 let (slack, abs) = slacks[d[1] as usize];
                 let (pb, bigger) = preds[d[2] as usize];
-                let c = Case { szx: *szx, body_len: *len, slack, abs_budget: abs, dups: dv.clone(), pred_blocks: pb, pred_bigger: bigger };
+                let c = Case { szx: *szx, body_len: *len, slack, abs_budget: abs, dups: dv.clone(), pred_blocks: pb, pred_bigger: bigger, mid_base: [0u16, 101, 65535, 65534][(d[1] as usize + d[2] as usize) % 4] };
                 run_case("U1-every-length-small-blocks", i, n, &c, ctx, rep);
             },
         );
@@ -311,7 +314,7 @@ pub fn run(ctx: &Ctx, rep: &mut Report) {
                     rep.count("skipped-no-larger-block-size");
                     return;
                 }
-                let c = Case { szx: *szx, body_len: *len, slack, abs_budget: abs, dups: dv.clone(), pred_blocks: pb, pred_bigger: bigger };
+                let c = Case { szx: *szx, body_len: *len, slack, abs_budget: abs, dups: dv.clone(), pred_blocks: pb, pred_bigger: bigger, mid_base: [0u16, 101, 65535][(d[1] as usize + d[2] as usize) % 3] };
                 if let Some(b) = abs {
                     if b < budget_of(&Case { abs_budget: None, slack: 0, dups: dv.clone(), ..c }) {
                         rep.count("skipped-budget-does-not-admit-block-size");
